@@ -7,3 +7,4 @@ import CC.Thm.C13
 #print axioms CC.Thm.C13.bytes_be_roundtrip
 #print axioms CC.Thm.C13.storage_views
 #print axioms CC.Thm.C13.source_portable_match
+#print axioms CC.Thm.C13.source_x86_match
